@@ -574,12 +574,12 @@ Proof.
       eapply frame_set_mem_pre with (k := k) (r := r); try reflexivity; try assumption; try exact G3.
     - intros _. now apply G2.
     - intros; discriminate. }
-  cbn [res_builtAt res_sig]. fold r. fold s1.
-  destruct (N.eqb (res_builtAt r0) 0).
+  fold r. fold s1.
+  destruct (N.eqb (res_builtAt r) 0).
   { eapply G; [|apply run_frame; [exact Hnd1 | exact Hns]]. reflexivity. }
   destruct (flagged s1 k).
   { eapply G; [|apply run_frame; [exact Hnd1 | exact Hns]]. reflexivity. }
-  destruct (negb (N.eqb (r_sig (rules k)) (res_sig r0))).
+  destruct (negb (N.eqb (r_sig (rules k)) (res_sig r))).
   { eapply G; [|apply run_frame; [exact Hnd1 | exact Hns]]. reflexivity. }
   destruct (negb (valid rules env k r)).
   { eapply G with (e := EValid k false); [reflexivity|].
